@@ -267,6 +267,23 @@ def scn_steps(T, case):
     stepcontract.scenario(T, case, "C14")
 
 
+# ------------------------------------------------------------------------------------ a variable scaler that has served another configuration before
+def cases_scaler_reuse(tier):
+    from contracts import C11
+
+    for cid, c in C11.cases_linear(tier):
+        if c.get("prior"):
+            yield cid, c
+
+
+def scn_scaler_reuse(T, case):
+    """'never an unrelated internal exception' for every kind of transform: a scaler object that has served a configuration with another number of linear constraints still transforms this one (C11's linear-constraint scenario with a used scaler, under this property's prefix)."""
+    from contracts import C11
+    from contracts.reuse import Renamed
+
+    C11.scn_linear(Renamed(T, "C11.linear.", "C14.scaler_reuse."), case)
+
+
 SCENARIOS = [
     Scenario("constraint_info_raises_clause", scn_constraint_info, cases_constraint_info, {"quick": 3, "thorough": 20}),
     Scenario("native_failure_patterns", scn_native_patterns, cases_native_patterns, {"quick": 1, "thorough": 1}),
@@ -277,6 +294,7 @@ SCENARIOS = [
     Scenario("function_budget_stays_with_the_driver", scn_budget, cases_budget, {"quick": 1, "thorough": 2}),
     Scenario("gradient_solve_with_fewer_perturbations_than_variables_bounded", scn_solve, cases_solve, {"quick": 10, "thorough": 100}),
     Scenario("plan_steps_hand_over", scn_steps, cases_steps, {"quick": 1, "thorough": 2}),
+    Scenario("scaler_object_reused_for_another_configuration", scn_scaler_reuse, cases_scaler_reuse, {"quick": 5, "thorough": 30}),
 ]
 
 MANIFEST = {
